@@ -647,10 +647,18 @@ fn constructed_ok(cx: &mut Ctx, x: &Dt) -> bool {
   if o == x.obs() {
     true
   } else {
+    // the literal does not denote the date and time that was written (since the repair of the fraction
+    // conversion, ade63ff in /repo, no construction differs on the pinned tree): the case cannot be used for the
+    // calendar laws, and the difference itself is reported
     cx.rep.hit("skipped:construction-differs");
-    if std::env::var("VERIF_DEBUG").is_ok() {
-      eprintln!("construction differs: {} => {} (wanted {})", x.expr(), o, x.obs());
-    }
+    cx.rep.disagree(
+      Kind::ImplVsSpec,
+      "construction",
+      "C15 a date and time literal does not denote the written date, time and offset",
+      &x.expr(),
+      &o,
+      &x.obs(),
+    );
     false
   }
 }
@@ -788,6 +796,18 @@ fn run_zone_gaps(cx: &mut Ctx) {
   }
 }
 
+fn run_zone_gap_rows(cx: &mut Ctx, rows: &[(String, String)]) {
+  for (t, kind) in rows {
+    let e = format!("[date and time(\"{}\") = date and time(\"{}\"), date and time(\"{}\").time offset]", t, t, t);
+    let o = norm_panic(&feel(&e));
+    cx.rep.case(&e, true);
+    cx.rep.hit(&format!("zone-gap-table:{}", kind));
+    if o == "panic" {
+      cx.rep.disagree(Kind::ImplVsSpec, "datetime_compare_instant", "C15 named zone: a nonexistent or ambiguous local time panics in get_zone_offset", &e, "panic", "null or a value");
+    }
+  }
+}
+
 fn run_props(cx: &mut Ctx, dts: &[Dt], table_offset: &[Option<i64>]) {
   let mut live: Vec<(&Dt, String, Option<i64>)> = vec![];
   for (x, t) in dts.iter().zip(table_offset.iter()) {
@@ -896,9 +916,14 @@ fn dtd_ok(cx: &mut Ctx, n: i128) -> bool {
     true
   } else {
     cx.rep.hit("skipped:construction-differs");
-    if std::env::var("VERIF_DEBUG").is_ok() {
-      eprintln!("construction differs: {} => {} (wanted {})", dtd_text(n), feel(&dtd_text(n)), n);
-    }
+    cx.rep.disagree(
+      Kind::ImplVsSpec,
+      "construction",
+      "C15 a days and time duration literal does not denote the written length",
+      &dtd_text(n),
+      &feel(&dtd_text(n)),
+      &format!("(dtd {})", n),
+    );
     false
   }
 }
@@ -1259,6 +1284,34 @@ fn run_inner(cfg: &Cfg) -> Report {
     pd.push(mk(r.1 as i64, r.2 as i64, r.3 as i64, r.4 as i64, r.5 as i64, r.6 as i64, 0, Zone::Named(r.0.to_string())));
     pt.push(Some(r.7 as i64));
   }
+  // local times around the daylight-saving transitions of ten zones, 2012-2020 (corpus/C15/zone_offsets.json,
+  // generated by lib/zone_oracle.py from the system zone database): the offset of a named zone depends on the
+  // local time itself, also within a few hours of a transition
+  let mut gap_rows: Vec<(String, String)> = vec![];
+  {
+    let path = concat!(env!("CARGO_MANIFEST_DIR"), "/../corpus/C15/zone_offsets.json");
+    let table: serde_json::Value = std::fs::read_to_string(path).ok().and_then(|t| serde_json::from_str(&t).ok()).unwrap_or(json!({"rows": []}));
+    let rows = table["rows"].as_array().cloned().unwrap_or_default();
+    if rows.is_empty() {
+      cx.rep.notes.push("corpus/C15/zone_offsets.json not found or empty".into());
+    }
+    for (i, r) in rows.iter().enumerate() {
+      let (zone, local, kind) = (r["zone"].as_str().unwrap_or(""), r["local"].as_str().unwrap_or(""), r["kind"].as_str().unwrap_or(""));
+      if kind != "plain" {
+        gap_rows.push((format!("{}@{}", local, zone), kind.to_string()));
+        continue;
+      }
+      if !thorough && i % 3 != (cfg.seed % 3) as usize {
+        continue;
+      }
+      let f: Vec<i64> = local.split(|c| c == '-' || c == 'T' || c == ':').filter_map(|x| x.parse().ok()).collect();
+      if f.len() == 6 {
+        pd.push(mk(f[0], f[1], f[2], f[3], f[4], f[5], 0, Zone::Named(zone.to_string())));
+        pt.push(r["offset"].as_i64());
+      }
+    }
+  }
+  run_zone_gap_rows(&mut cx, &gap_rows);
   for _ in 0..(if thorough { 5000 } else { 1000 }) {
     let mut x = random_dt(&mut rng, -3000, 3000);
     if rng.chance(1, 8) {
